@@ -24,6 +24,9 @@ def generate(prop, seed, tier):
         # a bundled display whose sink is broken: Ctrl-C still comes out as KeyboardInterrupt
         cfg["progress"] = "bundled-sinkfail"
         cfg["sink_fails_from"] = rng.choice([1, 1, 2])
+    elif rng.random() < 0.14:
+        # a bundled display that works (it owns an update thread that has to be stopped and joined on the way out)
+        cfg["progress"] = "bundled-ok"
     sc = worldgen.gen_sched(rng)
     op = dict(op="run", cfg=cfg)
     if rng.random() < 0.25:
